@@ -146,3 +146,122 @@ Proof.
     rewrite R. change (has MORE MORE) with true. cbv iota.
     rewrite IH; [reflexivity | assumption | assumption | cbn [length] in *; lia].
 Qed.
+
+(* ------------------------------------------------------------------ *)
+(* count_and_instructions (ComponentGlyphIdFlagsIter) and the whole composite glyph *)
+Lemma zlen_anchor_bytes a : zlen (anchor_bytes a) = if has (anchor_flags a) ARGS_WORDS then 4 else 2.
+Proof.
+  unfold anchor_bytes. destruct (has (anchor_flags a) ARGS_WORDS); destruct a; reflexivity.
+Qed.
+Lemma zlen_transform_bytes t :
+  zlen (transform_bytes t) =
+  let f := transform_flags t in
+  if has f HAVE_SCALE then 2 else if has f HAVE_XY_SCALE then 4 else if has f HAVE_2X2 then 8 else 0.
+Proof.
+  destruct t as [[[xx yx] xy] yy]. unfold transform_bytes, transform_flags.
+  destruct (negb (yx =? 0) || negb (xy =? 0)); [reflexivity|].
+  destruct (negb (xx =? yy)); [reflexivity|]. destruct (negb (xx =? 16384)); reflexivity.
+Qed.
+
+Lemma skip_comp_step c extra rest k cf count : comp_ok c -> In extra [0; 32; 256] ->
+  let F := Z.lor (comp_flags c) extra in
+  skip_comps (S k) (comp_bytes c extra ++ rest) cf count
+  = if has extra MORE then skip_comps k rest F (count + 1) else (F, count + 1, rest).
+Proof.
+  intros (Hg & Ha & Ht) Hex F.
+  pose proof (cflags_facts _ _ (c_uflags c) _ (anchor_flags_in (c_anchor c)) (transform_flags_in (c_tr c)) Hex) as C.
+  unfold cflag_ok in C. fold (comp_flags c) in C. fold F in C.
+  repeat (apply andb_prop in C; destruct C as [C ?]).
+  repeat match goal with H : Bool.eqb _ _ = true |- _ => apply eqb_prop in H end.
+  unfold comp_bytes. fold F. rewrite <- !app_assoc. unfold u16be at 1 2. cbn [app skip_comps].
+  rewrite rd16_u16be by (unfold u16; lia).
+  replace (Z.land F CFLAGS_ALL) with F by lia.
+  set (n1 := if has F ARGS_WORDS then 4 else 2).
+  set (n2 := if has F HAVE_SCALE then 2 else if has F HAVE_XY_SCALE then 4 else if has F HAVE_2X2 then 8 else 0).
+  assert (Hn : zlen (anchor_bytes (c_anchor c) ++ transform_bytes (c_tr c)) = n1 + n2).
+  { rewrite zlen_app, zlen_anchor_bytes, zlen_transform_bytes. unfold n1, n2. cbv zeta.
+    repeat match goal with H : has F _ = _ |- _ => rewrite H end. reflexivity. }
+  rewrite (app_assoc (anchor_bytes (c_anchor c))).
+  pose proof (zlen_nonneg rest).
+  replace (zlen ((anchor_bytes (c_anchor c) ++ transform_bytes (c_tr c)) ++ rest) <? n1 + n2) with false
+    by (rewrite zlen_app, Hn; lia).
+  rewrite <- Hn. rewrite skipn_zlen_app.
+  match goal with H : has F MORE = has extra MORE |- _ => rewrite H end. reflexivity.
+Qed.
+
+Lemma skip_comps_written cs : forall c lastf tail k cf count, Forall comp_ok (c :: cs) -> In lastf [0; 256] ->
+  (length (c :: cs) <= k)%nat ->
+  exists F, skip_comps k (comps_bytes (c :: cs) lastf ++ tail) cf count = (F, count + zlen (c :: cs), tail)
+            /\ has F HAVE_INSTR = has lastf HAVE_INSTR.
+Proof.
+  induction cs as [|c2 cs IH]; intros c lastf tail k cf count Hok Hl Hk.
+  - destruct k as [|k]; [cbn in Hk; lia|]. inversion Hok as [|? ? Hc _]; subst.
+    cbn [comps_bytes].
+    assert (Hex : In lastf [0; 32; 256]) by (destruct Hl as [<-|[<-|[]]]; cbn; auto).
+    rewrite (skip_comp_step c lastf tail k cf count Hc Hex).
+    assert (has lastf MORE = false) as -> by (destruct Hl as [<-|[<-|[]]]; reflexivity).
+    eexists. split; [reflexivity|].
+    pose proof (cflags_facts _ _ (c_uflags c) _ (anchor_flags_in (c_anchor c)) (transform_flags_in (c_tr c)) Hex) as C.
+    unfold cflag_ok in C. fold (comp_flags c) in C.
+    repeat (apply andb_prop in C; destruct C as [C ?]).
+    repeat match goal with H : Bool.eqb _ _ = true |- _ => apply eqb_prop in H end. assumption.
+  - destruct k as [|k]; [cbn in Hk; lia|]. inversion Hok as [|? ? Hc Hok']; subst.
+    change (comps_bytes (c :: c2 :: cs) lastf) with (comp_bytes c MORE ++ comps_bytes (c2 :: cs) lastf).
+    rewrite <- app_assoc.
+    rewrite (skip_comp_step c MORE (comps_bytes (c2 :: cs) lastf ++ tail) k cf count Hc) by (cbn; auto).
+    change (has MORE MORE) with true. cbv iota.
+    destruct (IH c2 lastf tail k (Z.lor (comp_flags c) MORE) (count + 1) Hok' Hl) as (F & E & HF); [cbn [length] in *; lia|].
+    exists F. split; [|exact HF]. rewrite E. f_equal. f_equal. rewrite (zlen_cons c (c2 :: cs)). lia.
+Qed.
+
+Lemma comps_bytes_len cs : forall c lastf, (length (c :: cs) <= length (comps_bytes (c :: cs) lastf))%nat.
+Proof.
+  induction cs as [|c2 cs IH]; intros c lastf.
+  - cbn [comps_bytes length]. unfold comp_bytes. rewrite !app_length. cbn [u16be length]. lia.
+  - change (comps_bytes (c :: c2 :: cs) lastf) with (comp_bytes c MORE ++ comps_bytes (c2 :: cs) lastf).
+    rewrite app_length. specialize (IH c2 lastf). unfold comp_bytes at 1. rewrite !app_length. cbn [u16be length] in *. lia.
+Qed.
+
+(* every composite glyph with >= 1 component and < 65536 instruction bytes: bounding box, all
+   components (ids, flag words incl. user flags, anchors, transforms) and the instruction bytes read back *)
+Lemma composite_roundtrip g c cs :
+  cg_comps g = c :: cs -> Forall comp_ok (c :: cs) -> bbox_ok (cg_bbox g) -> zlen (cg_instr g) <= 65535 ->
+  let lastf := if zlen (cg_instr g) =? 0 then 0 else HAVE_INSTR in
+  exists bytes, write_composite 0 g = Some bytes
+    /\ read_glyph bytes = Some (RComposite (bbox_list (cg_bbox g)) (exp_comps (c :: cs) lastf)
+                                           (if zlen (cg_instr g) =? 0 then None else Some (cg_instr g)))
+    /\ zlen bytes mod 2 = 0.
+Proof.
+  intros Hcs Hok Hbb Hil lastf. unfold write_composite. rewrite Hcs.
+  eexists. split; [reflexivity|]. split; [|apply pad2_even; reflexivity].
+  match goal with |- context [pad2 0 ?b] => set (body := b) end.
+  assert (Hp : exists p, pad2 0 body = body ++ p).
+  { destruct (pad2_shape 0 body) as [->| ->]; [exists []; rewrite app_nil_r; reflexivity | exists [0]; reflexivity]. }
+  destruct Hp as [p ->]. unfold body. clear body.
+  destruct (cg_bbox g) as [[[x0 y0] x1] y1] eqn:Ebb. destruct Hbb as (B0 & B1 & B2 & B3).
+  assert (Hl : In lastf [0; 256]) by (unfold lastf; destruct (zlen (cg_instr g) =? 0); cbn; auto).
+  set (itail := (if negb (zlen (cg_instr g) =? 0) then u16be (zlen (cg_instr g) mod 65536) ++ cg_instr g else []) ++ p).
+  assert (Hd : (i16be (-1) ++ bbox_bytes (x0, y0, x1, y1) ++ comps_bytes (c :: cs) (if negb (zlen (cg_instr g) =? 0) then HAVE_INSTR else 0)
+                ++ (if negb (zlen (cg_instr g) =? 0) then u16be (zlen (cg_instr g) mod 65536) ++ cg_instr g else [])) ++ p
+               = 255 :: 255 :: (bbox_bytes (x0, y0, x1, y1) ++ comps_bytes (c :: cs) lastf ++ itail)).
+  { unfold itail, lastf. rewrite <- !app_assoc. destruct (zlen (cg_instr g) =? 0); reflexivity. }
+  rewrite Hd. rewrite read_glyph_cons. change (0 <=? s16 (rd16 255 255)) with false. cbv iota.
+  change (255 :: 255 :: bbox_bytes (x0, y0, x1, y1) ++ comps_bytes (c :: cs) lastf ++ itail)
+    with ((255 :: 255 :: bbox_bytes (x0, y0, x1, y1)) ++ (comps_bytes (c :: cs) lastf ++ itail)).
+  rewrite (take_app_n 10) by reflexivity. cbn [obind fst snd].
+  assert (E2 : map s16 (rd16s (skipn 2 (255 :: 255 :: bbox_bytes (x0, y0, x1, y1)))) = [x0; y0; x1; y1]).
+  { cbn [skipn]. unfold bbox_bytes, i16be, u16be. cbn [app rd16s map]. rewrite !s16_i16be by assumption. reflexivity. }
+  rewrite E2.
+  assert (Hfuel : (length (c :: cs) <= length (comps_bytes (c :: cs) lastf ++ itail))%nat).
+  { rewrite app_length. pose proof (comps_bytes_len cs c lastf). lia. }
+  rewrite (comps_roundtrip cs c lastf itail _ Hok Hl Hfuel).
+  unfold composite_instructions.
+  destruct (skip_comps_written cs c lastf itail _ 0 0 Hok Hl Hfuel) as (F & ES & HF).
+  rewrite ES. cbn [bbox_list]. f_equal. f_equal. cbn [snd]. rewrite HF.
+  unfold itail, lastf. destruct (zlen (cg_instr g) =? 0) eqn:Ez; cbn [negb].
+  - change (has 0 HAVE_INSTR) with false. reflexivity.
+  - change (has HAVE_INSTR HAVE_INSTR) with true. cbv iota.
+    pose proof (zlen_nonneg (cg_instr g)).
+    rewrite Z.mod_small by lia. unfold u16be. rewrite <- !app_assoc. cbn [app].
+    rewrite rd16_u16be by (unfold u16; lia). rewrite take_app. reflexivity.
+Qed.
